@@ -42,7 +42,8 @@
    Library behaviour (encoding/json, yaml.v3, strconv, unmarshalers of trait types) enters the
    decoders only through per-document view records measured by the harness.                     *)
 From Coq Require Import String Ascii ZArith List Bool.
-From GT Require Import Base.GEnumStr Base.GEnumSort.
+From GT Require Import Base.GEnumStr.
+From GT Require Import Base.GEnumSort.
 Import ListNotations.
 Local Open Scope string_scope.
 Local Open Scope list_scope.
